@@ -549,7 +549,7 @@ def cases(tier, seed):
     # options left at their documented defaults (constructor called without them)
     cs.append(case_minkowski(2, 2, 2, 2, "default", "none", omit=True))
     cs.append(case_msm("identity", False, 2, 2, 2, 2, "default", "none", omit=True))
-    cs.append(case_fourier("gaussian", 0.8, 2, 4, 2, "default", "none", omit=True))
+    cs.append(case_fourier("gaussian", 0.8, 1, 6, 1, "default", "none", omit=True))  # N=6: sigma = round(0.8*4) = 3 differs from round(f*4) for other f
     cs.append(case_likelihood("silverman", 2, 2, 2, 1, "none", omit=True))
     for cov in ("identity", "inverse_variance", "given"):
         cs.append(case_msm(cov, False, 2, 2, 2, 2, "sym", "mixed"))
